@@ -20,13 +20,17 @@ Model of the searcher's block scheduler (C05), mirroring pkg/segment/query/proce
 A record is (id, ts).  Reading a block (readSortedRRCs: raw search / PQMR) is abstracted: a block carries the
 records that match.  Abstractions that only affect the relative order of records with EQUAL timestamps (the
 correspondence run compares batches with runs of equal timestamps ordered by id):
-  * sort.Slice is not stable; the model sorts with a stable insertion sort;
+  * sort.Slice is not stable; the model sorts with a stable insertion sort (since the repair sortRRCs breaks
+    ties by (BlockNum, RecordNum), initializeQSRs by the segment key, and fetchRRCs reads the segments in
+    segment-key order: the order among equal timestamps is a function of the data — `rrcBefore` below,
+    Props.C05 §4 — but it is still not the order of the stable sort of this model);
   * fetchRRCs reads the chosen blocks grouped per segment and k-way-merges the groups with unsentRRCs
     (first slice wins ties); the model sorts the records of all chosen blocks together and merges that with
     unsentRRCs (left operand wins ties).
 initializeQSRs orders the segment requests with sort.Slice as well; there the order among requests with equal
-keys DOES matter (it selects the cut-off).  sort.Slice is an insertion sort (stable) below 13 elements; the
-correspondence generators stay below that.
+keys DOES matter (it selects the cut-off).  Since the repair equal keys are ordered by the segment key; the
+correspondence harness names its synthetic segments in listed order (verifseg-0 … verifseg-7), so the stable sort
+of the model gives the same order.
 `anyOrder` is not modelled.  Core Lean only.
 -/
 namespace SigModel.Sched
@@ -250,5 +254,28 @@ def headRun (limit : Nat) (sent : Nat) : List (List α) → List (List α)
     let kept := b.take (limit - sent)
     let sent' := sent + kept.length
     if sent' ≥ limit then [kept] else kept :: headRun limit sent' bs
+
+/-! ### order among records with equal timestamps (sortRRCs after the repair) -/
+
+/-- a record of one segment as `sortRRCs` sees it: timestamp and position (block number, record number) -/
+structure PosRec where
+  ts : Nat
+  blk : Nat
+  recNum : Nat
+deriving Repr, DecidableEq
+
+/-- the comparator of `sortRRCs` after the repair: by timestamp (direction of the mode), then by position in
+the segment -/
+def rrcBefore (m : Mode) (a b : PosRec) : Bool :=
+  if a.ts ≠ b.ts then m.before a.ts b.ts
+  else if a.blk ≠ b.blk then decide (a.blk < b.blk)
+  else decide (a.recNum < b.recNum)
+
+/-- the comparator before the repair: timestamp only -/
+def rrcBeforeOld (m : Mode) (a b : PosRec) : Bool := m.before a.ts b.ts
+
+/-- what `sort.Slice(…, less)` guarantees about its result whatever the input order: no inversion -/
+def SortedUnder (before : PosRec → PosRec → Bool) (l : List PosRec) : Prop :=
+  l.Pairwise (fun a b => before b a = false)
 
 end SigModel.Sched
